@@ -54,13 +54,14 @@ def run(cmd, timeout=None, cwd=None, env=None):
 
 
 class Lock:
-    def __init__(self, name):
+    def __init__(self, name, shared=False):
         os.makedirs(BUILD, exist_ok=True)
         self.path = os.path.join(BUILD, name + ".lock")
+        self.shared = shared
 
     def __enter__(self):
-        self.f = open(self.path, "w")
-        fcntl.flock(self.f, fcntl.LOCK_EX)
+        self.f = open(self.path, "a")
+        fcntl.flock(self.f, fcntl.LOCK_SH if self.shared else fcntl.LOCK_EX)
         return self
 
     def __exit__(self, *a):
@@ -212,7 +213,9 @@ def eval_shards(outdir, timeout=900):
         rc, out = run(["coqc", "-noglob", "-Q", COQ, "TV", path], timeout=timeout)
         return path, rc, out
 
-    with cf.ThreadPoolExecutor(max_workers=16) as ex:
+    # shared lock: a concurrent check may not recompile .vo files (e.g. Generated/Constants.vo) while
+    # the shards that import them are being evaluated
+    with Lock("coq", shared=True), cf.ThreadPoolExecutor(max_workers=16) as ex:
         for path, rc, out in ex.map(one, shards):
             if rc != 0:
                 errors.append({"shard": os.path.basename(path), "rc": rc, "output": out[-800:]})
